@@ -1,10 +1,16 @@
 import ClusterVerif.Lemmas.C13Log
 import ClusterVerif.Lemmas.C13Deliv
+import ClusterVerif.Lemmas.C13Import
 /-!
 C13 — property theorems about the bookkeeping model (Model/C13.lean) of the adders' DAG
 services. They hold for every block stream, every allocation script, every script of
-BlockPut / BlockAllocate / Pin failures. The content half of the property (closure under
-links, read-back, root equalities) is not modelled; it is validated by the harness.
+BlockPut / BlockAllocate / Pin failures.
+
+The content half of the property (second part of this file, namespace `CV.C13.Imp`) is proved over the model
+of the importer front-end (Model/C13Import.lean): size chunker, balanced and trickle layouts, directories,
+the stream handed to the DAG service; for every file length, chunk size, layout, raw-leaves, wrap and hidden
+setting and every directory tree. Hashing, the protobuf / unixfs byte encodings, CAR input and the rabin /
+buzhash boundaries are not modelled: for those the harness' Go oracles remain.
 
 `CallerStops`: the importer does not go on after a failed `Add` (`adder.go` returns at the first
 error of `dagFmtr.Add`, so `Finalize` is reached only when no `Add` failed). The dependency
@@ -231,5 +237,229 @@ theorem shard_allocations (c : Cfg) (stream : List Blk) (fin : Option Nat) (hwf 
     structural view agree by proof (for the shard contents and destinations they are compared per case). -/
 theorem decoded_pins (c : Cfg) (stream : List Blk) (fin : Option Nat) :
     pinsOkOf (run c stream fin).log = acceptedPins (run c stream fin).pins := run_log_pins c stream fin
+
+/-! ## the content half: what the importer builds and hands to the DAG service -/
+namespace Imp
+
+variable {β : Type}
+
+/-- `size-n` chunks concatenate to the input (any input, any n > 0; `size-0` is refused by the parser) -/
+theorem chunk_concat (n : Nat) (hn : 0 < n) (xs : List β) : (chunk n xs).flatten = xs :=
+  chunkAux_concat n hn xs.length xs (Nat.le_refl _)
+
+/-- no chunk is empty or longer than n, all but the last have exactly n items, the empty input has no chunk,
+    and the lengths are the ones the driver computes from the file size alone -/
+theorem chunk_sizes (n : Nat) (hn : 0 < n) (xs : List β) :
+    (∀ c ∈ chunk n xs, 0 < c.length ∧ c.length ≤ n) ∧ (∀ c ∈ (chunk n xs).dropLast, c.length = n) ∧
+    chunk n ([] : List β) = [] ∧ (chunk n xs).map List.length = chunkLens n xs.length :=
+  ⟨(chunkAux_sizes n hn xs.length xs (Nat.le_refl _)).1, (chunkAux_sizes n hn xs.length xs (Nat.le_refl _)).2, rfl,
+   chunkAux_lens n xs.length xs⟩
+
+example : chunk 3 [1, 2, 3, 4, 5, 6, 7] = [[1, 2, 3], [4, 5, 6], [7]] ∧ chunk 3 [1, 2, 3, 4, 5, 6] = [[1, 2, 3], [4, 5, 6]] ∧
+    chunkLens 64 130 = [64, 64, 2] ∧ chunkLens 64 128 = [64, 64] := by decide
+
+/-- Balanced layout: reading the leaves left to right gives back the file, byte for byte - for every file
+    length, chunk size and width ≥ 2 (the code's width is 174). The empty file is one empty leaf. -/
+theorem readback_balanced (n W : Nat) (hn : 0 < n) (hW : 2 ≤ W) (raw : Bool) (bytes : List β) :
+    (balanced bytesCodec raw W (chunk n bytes)).node.leaves.flatten = bytes := by
+  rw [(balanced_ok bytesCodec rfl raw W hW _).2]
+  split_ifs with h
+  · have := chunk_concat n hn bytes
+    rw [h] at this
+    simpa [bytesCodec] using this
+  · exact chunk_concat n hn bytes
+
+/-- Trickle layout: the same. The empty file is an inner node without links. -/
+theorem readback_trickle (n W : Nat) (hn : 0 < n) (hW : 0 < W) (raw : Bool) (bytes : List β) :
+    (trickle bytesCodec raw W (chunk n bytes)).node.leaves.flatten = bytes := by
+  rw [(trickle_ok bytesCodec raw W hW _).2]
+  exact chunk_concat n hn bytes
+
+/-- The leaves are the chunks themselves, in order (so a single-chunk file is its leaf under the balanced
+    layout, and there are as many leaves as chunks). -/
+theorem leaves_are_chunks (W : Nat) (hW : 2 ≤ W) (raw : Bool) (chunks : List (List β)) (hne : chunks ≠ []) :
+    (balanced bytesCodec raw W chunks).node.leaves = chunks ∧ (trickle bytesCodec raw W chunks).node.leaves = chunks ∧
+    (∀ c : List β, (balanced bytesCodec raw W [c]).node = .leaf (leafKind raw .file) c) := by
+  refine ⟨?_, (trickle_ok bytesCodec raw W (by omega) _).2, fun c => ?_⟩
+  · rw [(balanced_ok bytesCodec rfl raw W hW _).2]; simp [hne]
+  · simp [balanced, grow]
+
+/-- Every inner node records for each link the number of file bytes under it, the size returned for the
+    root is the file length (both layouts). -/
+theorem sizes_recorded (n W : Nat) (hn : 0 < n) (hW : 2 ≤ W) (raw : Bool) (bytes : List β) :
+    ((balanced bytesCodec raw W (chunk n bytes)).node.sized List.length = true ∧
+     (balanced bytesCodec raw W (chunk n bytes)).size = bytes.length) ∧
+    ((trickle bytesCodec raw W (chunk n bytes)).node.sized List.length = true ∧
+     (trickle bytesCodec raw W (chunk n bytes)).size = bytes.length) := by
+  have hb := balanced_ok bytesCodec rfl raw W hW (chunk n bytes)
+  have ht := trickle_ok bytesCodec raw W (by omega) (chunk n bytes)
+  refine ⟨⟨hb.1.sized, ?_⟩, ⟨ht.1.sized, ?_⟩⟩
+  · rw [hb.1.size, fsize_eq_leaves]
+    show ((balanced bytesCodec raw W (chunk n bytes)).node.leaves.map List.length).sum = _
+    rw [sum_map_length_eq, readback_balanced n W hn hW]
+  · rw [ht.1.size, fsize_eq_leaves]
+    show ((trickle bytesCodec raw W (chunk n bytes)).node.leaves.map List.length).sum = _
+    rw [sum_map_length_eq, readback_trickle n W hn (by omega)]
+
+/-- No node of a balanced DAG has more than W links; a trickle node has at most W + 4 per level. -/
+theorem fanout_bounded (W : Nat) (hW : 2 ≤ W) (raw : Bool) (chunks : List (List β)) :
+    (balanced bytesCodec raw W chunks).node.fan W = true ∧
+    (trickle bytesCodec raw W chunks).node.fan (W + 4 * chunks.length) = true :=
+  ⟨(balanced_ok bytesCodec rfl raw W hW chunks).1.fan, (trickle_ok bytesCodec raw W (by omega) chunks).1.fan⟩
+
+/-- The builders hand the blocks to `DAGService.Add` in post-order: children left to right, each once it is
+    complete, the root last. -/
+theorem emission_postorder (W : Nat) (hW : 2 ≤ W) (raw : Bool) (chunks : List (List β)) :
+    (balanced bytesCodec raw W chunks).emitted = (balanced bytesCodec raw W chunks).node.post ∧
+    (trickle bytesCodec raw W chunks).emitted = (trickle bytesCodec raw W chunks).node.post :=
+  ⟨(balanced_ok bytesCodec rfl raw W hW chunks).1.post, (trickle_ok bytesCodec raw W (by omega) chunks).1.post⟩
+
+/-- The balanced DAG is as shallow as the width allows: for n ≥ 1 chunks its height h is the least with
+    n ≤ W^h (one chunk: the leaf is the root, h = 0; up to W chunks: h = 1; …). -/
+theorem balanced_depth_minimal (W : Nat) (hW : 2 ≤ W) (raw : Bool) (c : List β) (cs : List (List β)) :
+    (c :: cs).length ≤ W ^ (balanced bytesCodec raw W (c :: cs)).node.height ∧
+    (0 < (balanced bytesCodec raw W (c :: cs)).node.height →
+      W ^ ((balanced bytesCodec raw W (c :: cs)).node.height - 1) < (c :: cs).length) := by
+  have hb : balanced bytesCodec raw W (c :: cs) = grow bytesCodec (leafKind raw .file) W cs.length 0
+      { node := .leaf (leafKind raw .file) c, size := bytesCodec.len c, below := [] } cs := rfl
+  have h := grow_depth bytesCodec (leafKind raw .file) W hW cs.length 0
+    { node := .leaf (leafKind raw .file) c, size := bytesCodec.len c, below := [] } cs (Nat.le_refl _)
+    (by simp [FNode.height]) (by simp [FNode.nleaves]) (by intro _; simp [FNode.nleaves])
+  simp only [FNode.nleaves] at h
+  obtain ⟨_, h2, h3⟩ := h
+  rw [hb]
+  simp only [List.length_cons]
+  refine ⟨by omega, fun hp => ?_⟩
+  have := h3 hp
+  omega
+
+example : (balanced bytesCodec false 2 (chunk 2 [1, 2, 3, 4, 5, 6, 7, 8, 9])).node.height = 3 ∧
+    (balanced bytesCodec false 2 (chunk 2 [1, 2, 3, 4, 5, 6, 7, 8, 9])).node.leaves = [[1, 2], [3, 4], [5, 6], [7, 8], [9]] ∧
+    (balanced bytesCodec false 2 (chunk 2 [1, 2, 3, 4, 5, 6, 7, 8, 9])).emitted.length = 11 ∧
+    (trickle bytesCodec true 2 (chunk 1 [1, 2, 3, 4, 5, 6, 7, 8, 9])).node.leaves.length = 9 := by decide
+
+/-- Closure: the stream handed to the DAG service contains the root and, with a block, every block it links
+    to; and nothing else than the blocks reachable from the root - except, for a lone file or symlink added
+    without wrapping, the MFS directory that holds it under its CID (`scaffold`), and the empty directory node
+    that `mfs.Mkdir` adds for every directory below the top level. -/
+theorem closure (nameOf : UNode (List β) → String) (p : Params) (hW : 2 ≤ p.width) (top : List (String × Entry β))
+    (r : UNode (List β)) (hr : importRoot p top = some r) :
+    r ∈ emitStream nameOf p top ∧
+    (∀ b ∈ emitStream nameOf p top, ∀ c ∈ b.links, c ∈ emitStream nameOf p top) ∧
+    (∀ b, Reach r b → b ∈ emitStream nameOf p top) ∧
+    (∀ b ∈ emitStream nameOf p top, Reach r b ∨ b ∈ scaffold nameOf r ∨ b = .dir []) := by
+  have hm := emitStream_mem nameOf p hW top r hr
+  refine ⟨(hm r).2 (Or.inl (UNode.mem_blocks_self r)), ?_, fun b hb => (hm b).2 (Or.inl (reach_blocks r b hb)), ?_⟩
+  · intro b hb c hc
+    rcases (hm b).1 hb with h | h | h
+    · exact (hm c).2 (Or.inl (blocks_closed r b c h hc))
+    · unfold scaffold at h
+      split_ifs at h
+      · simp at h
+      · simp only [List.mem_singleton] at h
+        subst h
+        simp only [UNode.links, List.map_cons, List.map_nil, List.mem_singleton] at hc
+        rw [hc]
+        exact (hm _).2 (Or.inl (UNode.mem_blocks_self r))
+    · subst h
+      simp [UNode.links] at hc
+  · intro b hb
+    rcases (hm b).1 hb with h | h | h
+    · exact Or.inl (blocks_reach r b h)
+    · exact Or.inr (Or.inl h)
+    · exact Or.inr (Or.inr h)
+
+/-- The same block is offered to `Add` several times (file roots re-added by MFS, the root by `PinRoot`,
+    equal chunks, equal files). Whatever the CID function, the seen-set of the sharding DAG service keeps each
+    CID once, and exactly the CIDs of the stream: shard links partition the *distinct* blocks. -/
+theorem stream_dedup {γ : Type} [DecidableEq γ] (cid : UNode (List β) → γ) (stream : List (UNode (List β))) :
+    (firsts [] (stream.map cid)).Nodup ∧ ∀ x, x ∈ firsts [] (stream.map cid) ↔ ∃ b ∈ stream, cid b = x := by
+  refine ⟨firsts_nodup _ _, fun x => ?_⟩
+  rw [mem_firsts]; simp
+
+example : firsts [] [1, 2, 2, 3, 1, 3] = [1, 2, 3] := by decide
+
+/-- Every entry of a directory of the request is linked from the directory's node under its name, with the
+    DAG the importer builds for it; entries whose name starts with a dot are left out exactly when hidden
+    files were not asked for; nothing else is linked; the links are in name order. -/
+theorem every_file_reachable (p : Params) (es : List (String × Entry β)) :
+    ∃ ls, importEntry p (visible p.hidden (.dir es)) = .dir ls ∧
+      (∀ n u, (n, u) ∈ ls ↔ ∃ e, (n, e) ∈ es ∧ u = importEntry p (visible p.hidden e) ∧
+        (p.hidden = true ∨ isHiddenName n = false)) ∧
+      ls.Pairwise (fun a b => a.1 ≤ b.1) ∧ ls.length = (visibleL p.hidden es).length := by
+  refine ⟨sortLinks (importEntries p (visibleL p.hidden es)), by simp [visible, importEntry], ?_, sortLinks_sorted _, ?_⟩
+  · intro n u
+    rw [mem_sortLinks, mem_importEntries]
+    constructor
+    · rintro ⟨e', he', rfl⟩
+      obtain ⟨e, he, rfl, hv⟩ := (mem_visibleL p.hidden es n e').mp he'
+      exact ⟨e, he, rfl, hv⟩
+    · rintro ⟨e, he, rfl, hv⟩
+      exact ⟨visible p.hidden e, (mem_visibleL p.hidden es n _).mpr ⟨e, he, rfl, hv⟩, rfl⟩
+  · rw [length_sortLinks]
+    induction (visibleL p.hidden es) with
+    | nil => simp [importEntries]
+    | cons x rest ih => obtain ⟨n, e⟩ := x; simp [importEntries, ih]
+
+/-- When wrapping, the root links every top-level entry (those are never filtered) under its name. -/
+theorem wrap_root_links (p : Params) (hw : p.wrap = true) (top : List (String × Entry β)) :
+    ∃ ls, importRoot p top = some (.dir ls) ∧
+      (∀ n u, (n, u) ∈ ls ↔ ∃ e, (n, e) ∈ top ∧ u = importEntry p (visible p.hidden e)) ∧
+      ls.Pairwise (fun a b => a.1 ≤ b.1) := by
+  refine ⟨sortLinks (importEntries p (visibleTop p.hidden top)), by simp [importRoot, hw], ?_, sortLinks_sorted _⟩
+  intro n u
+  rw [mem_sortLinks, mem_importEntries]
+  constructor
+  · rintro ⟨e', he', rfl⟩
+    obtain ⟨e, he, rfl⟩ := (mem_visibleTop p.hidden top n e').mp he'
+    exact ⟨e, he, rfl⟩
+  · rintro ⟨e, he, rfl⟩
+    exact ⟨visible p.hidden e, (mem_visibleTop p.hidden top n _).mpr ⟨e, he, rfl⟩, rfl⟩
+
+/-- The returned root is a directory exactly when the add wraps or the single top-level entry is one. -/
+theorem root_is_dir_iff_wrap_or_tree (p : Params) (top : List (String × Entry β)) (r : UNode (List β))
+    (hr : importRoot p top = some r) :
+    r.isDir = true ↔ (p.wrap = true ∨ ∃ n e, top = [(n, e)] ∧ e.isDir = true) := by
+  unfold importRoot at hr
+  cases hw : p.wrap with
+  | true =>
+    simp only [hw, if_true, Option.some.injEq] at hr
+    subst hr; simp [UNode.isDir]
+  | false =>
+    simp only [hw, Bool.false_eq_true, if_false] at hr
+    rcases top with _ | ⟨⟨n, e⟩, _ | ⟨x, rest⟩⟩
+    · simp at hr
+    · simp only [Option.some.injEq] at hr
+      subst hr
+      cases e <;> simp [visible, importEntry, UNode.isDir, Entry.isDir]
+    · simp at hr
+
+/-- The root is the same with and without sharding: whatever DAG service is behind the importer (any state
+    type, any `Add` that may fail at any block), the blocks offered to it are a prefix of one stream that
+    depends on the tree and the import parameters only; two adds that both get through have offered the same
+    blocks and return the same root. -/
+theorem root_independent_of_dagservice {σ₁ σ₂ : Type} (svc₁ : Svc σ₁ (UNode (List β))) (svc₂ : Svc σ₂ (UNode (List β)))
+    (s₁ : σ₁) (s₂ : σ₂) (nameOf : UNode (List β) → String) (p : Params) (top : List (String × Entry β)) :
+    (importWith svc₁ s₁ nameOf p top).offered <+: emitStream nameOf p top ∧
+    (importWith svc₂ s₂ nameOf p top).offered <+: emitStream nameOf p top ∧
+    ∀ r₁ r₂, (importWith svc₁ s₁ nameOf p top).root = some r₁ → (importWith svc₂ s₂ nameOf p top).root = some r₂ →
+      r₁ = r₂ ∧ importRoot p top = some r₁ ∧
+      (importWith svc₁ s₁ nameOf p top).offered = emitStream nameOf p top ∧
+      (importWith svc₂ s₂ nameOf p top).offered = emitStream nameOf p top := by
+  refine ⟨feed_prefix svc₁ _ s₁, feed_prefix svc₂ _ s₂, ?_⟩
+  intro r₁ r₂ h1 h2
+  simp only [importWith] at h1 h2 ⊢
+  split_ifs at h1 h2 with c1 c2
+  exact ⟨Option.some.inj (h1.symm.trans h2), h1, feed_all svc₁ _ s₁ c1, feed_all svc₂ _ s₂ c2⟩
+
+def exTree : List (String × Entry Nat) :=
+  [("t", .dir [("b", .file [1, 2, 3, 4, 5]), (".h", .file [9]), ("a", .symlink "b"), ("d", .dir [])])]
+
+/-- a tree with a hidden entry, a symlink, an empty directory and a three-chunk file: the hypotheses are met -/
+example : (importRoot ({ chunkSize := 2, width := 2 } : Params) exTree).isSome = true ∧
+    (emitStream (fun _ => "x") ({ chunkSize := 2, width := 2 } : Params) exTree).length = 13 ∧
+    (emitStream (fun _ => "x") ({ chunkSize := 2, width := 2, hidden := true } : Params) exTree).length = 15 := by decide
+
+end Imp
 
 end CV.C13
